@@ -341,12 +341,45 @@ class Model:
             if not name.startswith("add_"):
                 continue
             sc = Scope(self.ix, f)
+            found = False
             for n in walk_local(f.node):
                 if isinstance(n, ast.Call):
                     t = self.ix.infer(n.func, sc)
                     if t is not None and t[0] == "cls" and t[1].is_subclass_of(self.EFLRItem):
                         out.append((f, t[1], n))
+                        found = True
                         break
+            if found:
+                continue
+            # the item is built by a helper of the logical file that is handed the item class: the "constructor call"
+            # of the add_* method is then its call of that helper
+            for n in walk_local(f.node):
+                if not isinstance(n, ast.Call):
+                    continue
+                try:
+                    tg = [g for g in self.ix.resolve_call(n, sc)[0] if getattr(g, "cls", None) is self.LogicalFile]
+                except Exception:  # noqa: BLE001
+                    tg = []
+                for g in tg:
+                    called = {c.func.id for c in walk_local(g.node) if isinstance(c, ast.Call)
+                              and isinstance(c.func, ast.Name) and c.func.id in g.param_names}
+                    gp = g.param_names[1:] if g.kind != "staticmethod" else g.param_names
+                    for pname in called:
+                        arg = None
+                        if pname in gp and gp.index(pname) < len(n.args):
+                            arg = n.args[gp.index(pname)]
+                        for k in n.keywords:
+                            if k.arg == pname:
+                                arg = k.value
+                        t = self.ix.infer(arg, sc) if arg is not None else None
+                        if t is not None and t[0] == "cls" and t[1].is_subclass_of(self.EFLRItem):
+                            out.append((f, t[1], n))
+                            found = True
+                            break
+                    if found:
+                        break
+                if found:
+                    break
         return out
 
 
